@@ -5,7 +5,8 @@
 (*  (a) checks exhaustively, for small constants, that the guarded actions are jointly           *)
 (*      satisfiable by that design for every setup / teardown order of several pods sharing an   *)
 (*      ENI, that they imply InvC13, and that the deliberately broken designs of BadDesign are    *)
-(*      each rejected by a guard (Datapath_mc_bad.cfg: the guards are not vacuous);               *)
+(*      each refused by a guard (Datapath_mc_bad.cfg is one instance, props/c13.py runs them all:  *)
+(*      the guards are not vacuous);                                                              *)
 (*  (b) in simulation mode generates scenarios: hist records the controllable steps (which pod,  *)
 (*      which datapath / families / options, teardown and how) and Finish appends it to           *)
 (*      IOEnv.VERIF_SCEN.  The Go harness maps the abstract step to concrete addresses.           *)
